@@ -664,6 +664,11 @@ func c08Server(s *sim.Sim, p *sim.Params, providers bool) {
 				}
 			}
 			r.remote = fmt.Sprintf("10.2.0.%d:%d", ti+1, 1000+k)
+			if !providers && !r.abortOK && s.Choose(sim.SFault, 12) == 0 {
+				// this client hangs up before its answer can be written; what the server
+				// does about the failed write is its own business, the other requests are not
+				r.hangup = true
+			}
 			plans[ti] = append(plans[ti], r)
 		}
 	}
@@ -701,6 +706,7 @@ func c08Server(s *sim.Sim, p *sim.Params, providers bool) {
 				}
 				k := c08desc(r)
 				if _, ok := solo[k]; !ok {
+					r.hangup = false // (the reference is what a client that stays would see)
 					solo[k] = ref.do(r)
 					s.Quiesce(0)
 					if strings.HasPrefix(r.path, "/out/") && solo[k].status != 200 {
@@ -760,6 +766,10 @@ func c08Server(s *sim.Sim, p *sim.Params, providers bool) {
 				}
 				call := s.Stamp()
 				resp := sv.do(r)
+				if r.hangup {
+					s.Fault("client-gone-at-write")
+					continue // nobody saw an answer
+				}
 				results = append(results, c08result{ti, r, resp, call, s.Stamp()})
 			}
 		}))
